@@ -72,6 +72,17 @@ def refsAux : Nat → Tok → Tok → List Tok → List Nat
 
 def refs (t : List Tok) : List Nat := refsAux 0 .lit .lit t
 
+/-- Method-call expressions `recv.name(..)` / `recv.name::<..>(..)` of a template: (token before the dot, name).
+    Method-call syntax is the one place where Rust resolves a name by the *type of the receiver* (inherent methods
+    first), so it is the one place where a path cannot pin the meaning of a call. -/
+def methodCalls : Tok → List Tok → List (Tok × Nat)
+  | _, [] => []
+  | prev, t :: rest =>
+    match t, rest with
+    | .p 46, .id n :: .open 40 :: _ => (prev, n) :: methodCalls t rest
+    | .p 46, .id n :: .p 58 :: .p 58 :: .p 60 :: _ => (prev, n) :: methodCalls t rest
+    | _, _ => methodCalls t rest
+
 def binderSet (templates : List (List Tok)) : List Nat :=
   templates.flatMap fun t => binders .lit .lit t ++ structGenerics t
 
